@@ -290,7 +290,7 @@ def subst_case(draw):
         old = old + 'q'
     count = draw(st.integers(0, 5))
     fillers = [draw(st.text(st.sampled_from('xyzXYZ 12\t_é日'), max_size=6)) for _ in range(count + 1)]
-    new = draw(st.one_of(st.just(''), st.text(st.sampled_from(ALPHA), max_size=5), st.just(old + old), st.just('x' + old), st.sampled_from(['', 'N', 'new'])))
+    new = draw(st.one_of(st.just(''), st.text(st.sampled_from(ALPHA), max_size=5), st.just(old + old), st.just('x' + old), st.sampled_from(['', 'N', 'new']), st.none()))       # None: a blank (variable, NULL or omitted slot) stands for empty text
     k = draw(st.one_of(st.none(), st.integers(1, count + 2)))
     return {'old': old, 'fillers': fillers, 'new': new, 'k': k, 'how': draw(st.sampled_from(['var', 'lit']))}
 
@@ -300,7 +300,12 @@ def check_subst(case):
     text = old.join(fillers)
     count = len(fillers) - 1
     env = Env(vars={'v_t': text, 'v_o': old, 'v_n': new, 'v_k': k})
-    T, O, N = (spell_s(text, case['how'], 'v_t'), spell_s(old, case['how'], 'v_o'), spell_s(new, case['how'], 'v_n'))
+    T, O = spell_s(text, case['how'], 'v_t'), spell_s(old, case['how'], 'v_o')
+    if new is None:
+        N = ['v_n', 'NULL', ''][(len(text) + count) % 3]
+        new = ''
+    else:
+        N = spell_s(new, case['how'], 'v_n')
     if k is None:
         want = new.join(fillers)
         f = 'SUBSTITUTE(%s,%s,%s)' % (T, O, N)
@@ -314,7 +319,7 @@ def check_subst(case):
 
 
 def subst_key(c):
-    return 'new-empty' if c['new'] == '' else ''
+    return 'new-empty' if not c['new'] else ''
 
 
 cs = st.fixed_dictionaries({'s': text_s, 'how': st.sampled_from(['var', 'var', 'lit'])})
